@@ -84,6 +84,11 @@ def extra_pool(rng):
         (["having-fields", "--at-least", k], None), (["decimate", "-n", "2"], None), (["count", "-g", k], None), (["cat", "-N", "idx", "-g", k], None),
         (["step", "-a", "shift,counter", "-f", k], None), (["rename", "-r", "^(.)$,f_\\1"], None), (["reorder", "-f", f"{k},{k2}"], None),
         (["put", f'${k2} = ${k} + 1'], None), (["stats1", "-a", "count,mode", "-f", k, "-g", k2], None), (["count-similar", "-g", f"{k},{k2}"], None),
+        (["cat", "-n", "-g", k], None), (["cat", "-n", "-N", "idx"], None), (["case", "-u", "-f", k], None), (["case", "-k", "-u", "-f", f"{k},{k2}"], None), (["case", "-s", "-v", "-f", k], None),
+        (["tee", "tee_out.dkvp"], None), (["tee", "-p", "cat > tee_pipe_out.dkvp"], None), (["fill-empty", "-S"], None), (["fill-empty", "--only-if-blank"], None),
+        (["fill-down", "-a"], None), (["fill-down", "--only-if-blank", "-f", k], None), (["sec2gmt", "-3", k], None), (["sec2gmt", "--millis2gmt", k], None),
+        (["grep", "-i", "pan"], None), (["grep", "-v", "-i", "eks"], None), (["sparsify"], None), (["sparsify", "-s", "X"], None), (["utf8-to-latin1"], None),
+        (["nothing"], None), (["altkv"], None), (["gap", "-n", "2"], None), (["sec2str", k, "%Y-%m-%d"], None), (["json-stringify", "-f", k], None),
     ]
 
 
@@ -551,6 +556,134 @@ def context_through_chain(ctx, tmp):
     ctx.cov["head_early_exit_end_contexts"] = seen
 
 
+# ------------------------------------------------------------------------------------------ inputs concatenate, every format / spelling / compression
+def concat_sources(ctx, tmp):
+    """reading a b (c) yields the concatenation of reading each alone, for every input format, for every way of naming the files
+    (positional, --from a --from b, --mfrom a b --, --files listfile), for plain and compressed files mixed in one invocation, and -- for the
+    formats without a per-file header -- equals reading the concatenated bytes (`cat a b | mlr`); -n reads nothing; seqgen as a source chains like a pipe."""
+    rng = ctx.rng
+    d = os.path.join(tmp, "cat")
+    os.mkdir(d)
+    def recs(n, keys):
+        return [[(k.encode(), rng.choice([b"pan", b"eks", b"3", b"17", b"0.5", b"x y"])) for k in keys] for _ in range(n)]
+    def render(fmt, rs):
+        if fmt == "dkvp":
+            return dkvp(rs)
+        if fmt == "nidx":
+            return b"".join(b" ".join(v.replace(b" ", b"_") for _, v in r) + b"\n" for r in rs)
+        if fmt in ("json", "jsonl"):
+            docs = [json.dumps({k.decode(): v.decode() for k, v in r}) for r in rs]
+            return ("[\n" + ",\n".join(docs) + "\n]\n").encode() if (fmt == "json" and rng.random() < 0.5) else ("\n".join(docs) + ("\n" if docs else "")).encode()
+        if fmt in ("csv", "csvlite", "tsv"):
+            sep = b"\t" if fmt == "tsv" else b","
+            if not rs:
+                return b""
+            return sep.join(k for k, _ in rs[0]) + b"\n" + b"".join(sep.join(v for _, v in r) + b"\n" for r in rs)
+        if fmt == "xtab":
+            return b"\n".join(b"".join(k + b" " + v.replace(b" ", b"_") + b"\n" for k, v in r) for r in rs)
+        if fmt == "implicit":
+            return b"".join(b",".join(v for _, v in r) + b"\n" for r in rs)
+        raise ValueError(fmt)
+    FL = {"dkvp": ["--idkvp"], "nidx": ["--inidx", "--ifs", " "], "json": ["--ijson"], "jsonl": ["--ijsonl"], "csv": ["--icsv"], "csvlite": ["--icsvlite"], "tsv": ["--itsv"],
+          "xtab": ["--ixtab"], "implicit": ["--icsv", "--implicit-csv-header"]}
+    HEADERLESS = ("dkvp", "nidx", "json", "jsonl", "implicit")
+    jobs, plans = [], []
+    for fmt in FL:
+        for rep in range(2 if ctx.tier == "quick" else 10):
+            sub = os.path.join(d, "%s%d" % (fmt, rep))
+            os.mkdir(sub)
+            nf = rng.choice([2, 3])
+            keysets = [rng.sample(["a", "b", "c", "x"], rng.randint(1, 3)) for _ in range(nf)]
+            if fmt in ("implicit", "nidx") or rng.random() < 0.4:
+                keysets = [keysets[0]] * nf
+            sizes = [rng.choice([0, 1, 2, 4]) for _ in range(nf)]
+            if fmt == "xtab":
+                sizes = [max(1, z) for z in sizes]
+            names = []
+            for j in range(nf):
+                n = "p%d.%s" % (j + 1, fmt)
+                Path(sub, n).write_bytes(render(fmt, recs(sizes[j], keysets[j])))
+                names.append(n)
+            Path(sub, "all.bin").write_bytes(b"".join(Path(sub, n).read_bytes() for n in names))
+            Path(sub, "list.txt").write_text("".join(n + "\n" for n in names))
+            comp = []
+            for j, n in enumerate(names):
+                raw = Path(sub, n).read_bytes()
+                kind = ["gz", "bz2", "z", "plain"][(j + rep) % 4]
+                cn = n + {"gz": ".gz", "bz2": ".bz2", "z": ".z", "plain": ""}[kind]
+                if kind != "plain":
+                    Path(sub, cn).write_bytes({"gz": gzip.compress, "bz2": bz2.compress, "z": zlib.compress}[kind](raw))
+                comp.append(cn)
+            pre = FL[fmt] + ["--ojsonl"]
+            verb = ["put", "$_fnr = FNR; $_nr = NR; $_k = FILENUM"]
+            plan = {"fmt": fmt, "dir": sub, "names": names, "j": {}}
+            def add(tag, args):
+                plan["j"][tag] = len(jobs); jobs.append((args, sub))
+            add("positional", pre + ["cat"] + names)
+            add("--from", pre + sum([["--from", n] for n in names], []) + ["cat"])
+            add("--mfrom", pre + ["--mfrom"] + names + ["--", "cat"])
+            add("--files", pre + ["--files", "list.txt", "cat"])
+            add("mixed-compression", pre + ["cat"] + comp)
+            add("then-chain", pre + ["cat", "then", "cat", "-n", "then", "cut", "-x", "-f", "n"] + names)
+            for j, n in enumerate(names):
+                add("alone%d" % j, pre + ["cat", n])
+            if fmt in HEADERLESS:
+                add("concatenated-bytes", pre + ["cat", "all.bin"])
+            add("-n", pre + ["-n", "--from", names[0], "put", "-q", 'end { print "NR=" . NR }'])
+            add("ctx", pre + verb + names)
+            add("ctx-comp", pre + verb + comp)
+            plans.append(plan)
+    res = c05_batch.run_batch(ctx, jobs)
+    c05_batch.crosscheck(ctx, jobs, res, k=4)
+    nbad = 0
+    for p in plans:
+        g = lambda tag: res[p["j"][tag]]
+        files = {n: Path(p["dir"], n).read_bytes().decode("latin1") for n in p["names"]}
+        alone = [g("alone%d" % j) for j in range(len(p["names"]))]
+        ctx.count(("concat", p["fmt"], tuple(files.items())))
+        ctx.dist("concat_format:" + p["fmt"])
+        if any(a[0] != 0 for a in alone):
+            ctx.violation({"kind": "concat", "broken": "a generated file cannot be read alone (generator)", "format": p["fmt"], "files": files,
+                           "stderr": b"".join(a[2] for a in alone).decode("latin1")[-400:]}, found_input=False)
+            continue
+        want = b"".join(a[1] for a in alone)
+        for tag in ("positional", "--from", "--mfrom", "--files", "mixed-compression", "then-chain", "concatenated-bytes"):
+            if tag not in p["j"]:
+                continue
+            st, out, err = g(tag)
+            if st != 0 or out != want:
+                nbad += 1
+                if nbad <= 3:
+                    ctx.violation({"kind": "concat", "sub": tag, "format": p["fmt"], "args": jobs[p["j"][tag]][0], "files": files, "status": st,
+                                   "broken": "oracle: reading the files (%s) differs from the concatenation of reading each alone" % tag,
+                                   "observed": out.decode("latin1")[:2000], "expected": want.decode("latin1")[:2000], "stderr": err.decode("latin1")[-300:],
+                                   "class": "inputs-do-not-concatenate:%s:%s" % (p["fmt"], tag)})
+        st, out, err = g("-n")
+        if st != 0 or out.strip() != b"NR=0":
+            ctx.violation({"kind": "concat", "sub": "-n", "format": p["fmt"], "args": jobs[p["j"]["-n"]][0], "files": files, "observed": out.decode("latin1"), "status": st,
+                           "broken": "oracle: -n must read no input at all (the end block sees NR=0), also with --from", "class": "dash-n-reads-input"})
+        if g("ctx")[0] != 0 or g("ctx")[1] != g("ctx-comp")[1]:
+            ctx.violation({"kind": "concat", "sub": "ctx-comp", "format": p["fmt"], "args": jobs[p["j"]["ctx-comp"]][0], "files": files,
+                           "broken": "oracle: NR/FNR/FILENUM of the records differ between plain and compressed copies of the same files",
+                           "observed": g("ctx-comp")[1].decode("latin1")[:1500], "expected": g("ctx")[1].decode("latin1")[:1500], "class": "inputs-do-not-concatenate:compressed-contexts"})
+    ctx.cov["concat_sources"] = {"layouts": len(plans), "runs": len(jobs), "bad": nbad}
+    # seqgen as the record source: chain == pipe for verbs that do not consult the counters
+    sj = []
+    tails = [["put", "$y = $i . \"a\""], ["tac"], ["head", "-n", "3"], ["filter", "$i % 2 == 1"], ["cat", "-n"], ["sort", "-nr", "i"], ["nothing"], ["fill-empty"], ["sec2gmt", "i"]]
+    for t in tails:
+        sj.append((["seqgen", "--start", "1", "--stop", "7", "then"] + t, d))
+        sj.append((["seqgen", "-f", "i", "--start", "1", "--stop", "7"], d))
+    sres = c05_batch.run_batch(ctx, sj)
+    Path(d, "seq.dkvp").write_bytes(sres[1][1])
+    pres = c05_batch.run_batch(ctx, [(t + ["seq.dkvp"], d) for t in tails])
+    for t, ch, pi in zip(tails, sres[0::2], pres):
+        ctx.count(("seqgen-chain", tuple(t)))
+        if ch[0] != 0 or pi[0] != 0 or ch[1] != pi[1]:
+            ctx.violation({"kind": "concat", "sub": "seqgen", "args": ["seqgen", "--start", "1", "--stop", "7", "then"] + t, "files": {},
+                           "broken": "oracle: `mlr seqgen ... then B` differs from `mlr seqgen ... | mlr B`", "observed_chained": ch[1].decode("latin1"),
+                           "observed_piped": pi[1].decode("latin1"), "class": "chain-differs-from-pipe:seqgen+" + t[0]})
+
+
 # ------------------------------------------------------------------------------------------ input sources, NF, end block
 def sources(ctx, tmp):
     rng = ctx.rng
@@ -682,6 +815,7 @@ def run(ctx):
         oblivious_impl(ctx, tmp)
         multifile(ctx, ok, tmp)
         context_through_chain(ctx, tmp)
+        concat_sources(ctx, tmp)
         sources(ctx, tmp)
     finally:
         shutil.rmtree(tmp, ignore_errors=True)
